@@ -204,11 +204,15 @@ func (s *Store[K, V]) spec_Persist_loop1(idx_ int) {
 // ghost: secondary-tier lookups made by this goroutine, and what the last one answered
 func gh_secGets() real       { panic("ghost") }
 func gh_secGetHit() bool     { panic("ghost") }
+func gh_secGetOk() bool      { panic("ghost") }
 func gh_secGetExpire() int64 { panic("ghost") }
 
 func ext_internal_SecondaryCache_Get[K comparable, V any](sc any, key K) (value V, cost int64, expire int64, ok bool, err error) {
 	set(gh_secGets(), gh_secGets()+1)
 	set(gh_secGetHit(), ok && err == nil)
+	set(gh_secGetOk(), ok)
+	// A-SEC: the tier returns deadlines and costs it was given (never negative)
+	ensures("sane", expire >= 0 && cost >= 0)
 	set(gh_secGetExpire(), expire)
 	return
 }
